@@ -429,6 +429,8 @@ pub fn jobs(prop: &str, tier: &str) -> Vec<Job> {
             c.n_forms = 1;
             c.clear = true;
             life(&mut out, c, if thorough { 4 } else { 3 }, &[], &|i| i.positional, &|_, _| {});
+            // FlatStack::get(i) for i >= len must panic, for every index container
+            stacks(&mut out, StackOracle::Sequence, if thorough { 4 } else { 3 }, &[], 3);
         }
         "C14" => {
             let mut c = LifeCfg::new("C14");
